@@ -381,4 +381,55 @@ example : parseGlif R0 (encodeGlif F0 g1) = .ok (normGL nc0 g1) :=
      by intro a ha h; simp [g1, g0] at ha; subst ha; rfl⟩
     (by decide) (by decide +kernel) (by intro n hn; cases hn) ⟨Or.inr rfl, Or.inr rfl⟩
 
+/-! ### non-vacuity of `legal_accepted` (C12): items out of canonical order, comments everywhere -/
+
+def d0 : GDoc :=
+  { prolog := [.decl, .comment], name := ['a'], minor := true,
+    items := [.comment,
+      .anchor { x := 0, y := 0, name := none, color := none, ident := some ['i'] },
+      .unicode 65,
+      .outline [.comment,
+        .contour none [.point { x := 0, y := 0, typ := .line, smooth := false, name := none, ident := some ['p'] }, .comment],
+        .emptyContour none,
+        .component { base := ['b'], transform := { xScale := 0, xyScale := 0, yxScale := 0, yScale := 0, xOffset := 0, yOffset := 0 }, ident := none }],
+      .note (some ['n']),
+      .advance 0 0,
+      .comment],
+    trailer := [.other] }
+
+theorem legal_d0 : LegalItems ok0 d0.items := by
+  refine ⟨?_, by decide, by decide, by decide, by decide, by decide, by decide⟩
+  intro it hit
+  simp only [d0, List.mem_cons, List.not_mem_nil, or_false] at hit
+  rcases hit with rfl | rfl | rfl | rfl | rfl | rfl | rfl
+  · trivial
+  · exact ⟨rfl, rfl, (by intro n hn; cases hn), (by intro i hi; cases hi; decide)⟩
+  · exact ⟨by decide, by decide⟩
+  · intro o ho
+    simp only [List.mem_cons, List.not_mem_nil, or_false] at ho
+    rcases ho with rfl | rfl | rfl | rfl
+    · trivial
+    · refine ⟨?_, by decide, by intro i hi; cases hi⟩
+      intro c hc
+      simp only [List.mem_cons, List.not_mem_nil, or_false] at hc
+      rcases hc with rfl | rfl
+      · exact ⟨rfl, rfl, (by intro n hn; cases hn), (by intro i hi; cases hi; decide)⟩
+      · trivial
+    · trivial
+    · exact ⟨by decide, ⟨rfl, rfl, rfl, rfl, rfl, rfl⟩, (by intro i hi; cases hi)⟩
+  · trivial
+  · exact ⟨rfl, rfl⟩
+  · trivial
+
+example : ∃ g, parseGlif R0 (render F0 d0) = .ok g ∧ loadObjectLibs (interp nc0 d0) = .ok g :=
+  legal_accepted codec0 d0 (by decide) (by decide) legal_d0 (by
+      have h0 : dictGet objectLibsKey (interp nc0 d0).lib = none := by decide
+      intro v hv; rw [h0] at hv; cases hv) (evs := render F0 d0)
+    (by
+      have refl : ∀ l : List Ev, EvsPerm l l := by
+        intro l; induction l with
+        | nil => exact EvsPerm.nil
+        | cons e r ih => exact EvsPerm.cons (EvPerm.refl e) ih
+      exact refl _)
+
 end Glif
